@@ -36,13 +36,15 @@
 (* in the self-test cfgs, where TLC must report the violated invariant):   *)
 (*   DevSpendableIgnoresV2  SpendableOutputs scans only v1 pool spends     *)
 (*   DevDefragReselect      defrag re-adds an already selected output      *)
+(*   DevRedistLocksGathered a multi-batch Redistribute also reserves the   *)
+(*                          outputs gathered for a batch it then dropped   *)
 (***************************************************************************)
 EXTENDS Integers, FiniteSets, TLC
 
 CONSTANTS
     Delay,                  \* maturity delay of a miner payout, in blocks
     Batch,                  \* redistributeBatchSize (wallet.go:24)
-    DevSpendableIgnoresV2, DevDefragReselect,
+    DevSpendableIgnoresV2, DevDefragReselect, DevRedistLocksGathered,
     \* ---- enumeration sets / bounds used by Next (model checking only)
     Cfgs, InitWallets,      \* option records; initial wallets (id -> [v, m])
     Amounts, RedistNs, RedistAmts, SplitNs, SplitMins, SplitFee, Rewards,
@@ -103,7 +105,7 @@ Lock(S) == Prune([i \in DOMAIN locked \cup S |-> IF i \in S THEN now + cfg.rt EL
 
 \* Records the descriptors D (records [tid, ver, ins, out, fee, made]) as new transactions
 \* in status st and reserves their inputs.  Shared by Fund / Redistribute / Split.
-Allocate(D, st) ==
+AllocateX(D, st, extra) ==
     LET tids == {d.tid : d \in D}
         mades == UNION {d.made : d \in D}
         D2tx(d) == [ver |-> d.ver, st |-> st, ins |-> d.ins, inv |-> SumV(d.ins), out |-> d.out,
@@ -118,10 +120,12 @@ Allocate(D, st) ==
                     IF t \in TxIds
                     THEN (IF txs[t].st = "rlsing" THEN [txs[t] EXCEPT !.ins = @ \ UNION {d.ins : d \in D}] ELSE txs[t])
                     ELSE D2tx(CHOOSE d \in D : d.tid = t)]
-       /\ locked' = Lock(UNION {d.ins : d \in D})
+       /\ locked' = Lock(UNION {d.ins : d \in D} \cup extra)   \* extra # {} only under a named deviation
        /\ nextId' = BumpId(mades)
        /\ nextTx' = 1 + MaxOf(tids)
        /\ UNCHANGED <<cfg, owned, now>>
+
+Allocate(D, st) == AllocateX(D, st, {})
 
 -----------------------------------------------------------------------------
 (* Initial state: a wallet w (id -> [v, m]) under options c. *)
@@ -197,8 +201,13 @@ RedistNone(n, amt, feeub) ==
     /\ reply' = [r |-> "none", d |-> {}, dup |-> 0]
     /\ UNCHANGED svars
 
-\* success: one or more transactions over pairwise disjoint eligible CONFIRMED outputs, each
-\* creating outputs of value amt plus (maybe) change, conserving value including the fee
+\* success: one or more transactions (the code builds one per batch of at most Batch wanted
+\* outputs) over pairwise disjoint eligible CONFIRMED outputs, each creating outputs of value amt
+\* plus (maybe) change, conserving value including the fee.  PARTIAL success is success: when a
+\* later batch cannot be funded the call returns the batches built so far -- and reserves the
+\* inputs of exactly those (Allocate: locked' covers UNION ins and nothing else; NoOrphanLocks,
+\* ViewsAgree and the Obs after the call see an output that is reserved but spent by no
+\* returned transaction).
 RedistOK(n, amt, feeub, D) ==
     /\ amt > 0 /\ n > 0 /\ D # {}
     /\ Cardinality(SameMust(amt)) < n
@@ -209,6 +218,22 @@ RedistOK(n, amt, feeub, D) ==
           /\ SumV(d.ins) = d.fee + SumM(d.made)                   \* Conservation
     /\ Cardinality(UNION {d.made : d \in D}) <= n + Cardinality(D)
     /\ Allocate(D, "out")
+    /\ act' = RedistLabel(n, amt, feeub)
+    /\ reply' = [r |-> "ok", d |-> D, dup |-> 0]
+
+\* DEVIATION (3): the outputs gathered for a LATER batch that was then dropped for lack of funds
+\* (partial success) are reserved as well although no returned transaction spends them.
+RedistLeak(n, amt, feeub, D, extra) ==
+    /\ DevRedistLocksGathered
+    /\ amt > 0 /\ n > Batch /\ D # {} /\ extra # {}
+    /\ Cardinality(SameMust(amt)) < n
+    /\ extra \subseteq ConfMay \ UNION {d.ins : d \in D}
+    /\ \A d \in D :
+          /\ d.ver = 2 /\ d.out = 0
+          /\ d.ins \subseteq ConfMay
+          /\ \E o \in d.made : o.v = amt
+          /\ SumV(d.ins) = d.fee + SumM(d.made)
+    /\ AllocateX(D, "out", extra)
     /\ act' = RedistLabel(n, amt, feeub)
     /\ reply' = [r |-> "ok", d |-> D, dup |-> 0]
 
@@ -415,15 +440,30 @@ NextFund ==
               /\ FundDup(ver, amt, unc, [tid |-> nextTx, ver |-> ver, ins |-> sel, out |-> amt, fee |-> 0,
                                          made |-> ChangeOf(SumV(sel) + Val(x) - amt, nextId)], x)
 
+RedistDesc(tid, sel, k, amt, id) ==
+    [tid |-> tid, ver |-> 2, ins |-> sel, out |-> 0, fee |-> 0,
+     made |-> {[id |-> id + j - 1, v |-> amt] : j \in 1..k} \cup ChangeOf(SumV(sel) - k * amt, id + k)]
+NewIds(sel, k, amt) == k + (IF SumV(sel) > k * amt THEN 1 ELSE 0)
+
 NextRedist ==
     \E n \in RedistNs, amt \in RedistAmts :
         \/ RedistNone(n, amt, 0)
         \/ RedistFail(n, amt, 0)
         \/ \E k \in 1..n : \E sel \in (SUBSET ConfMay) \ {{}} :
               /\ SumV(sel) >= k * amt
-              /\ RedistOK(n, amt, 0, {[tid |-> nextTx, ver |-> 2, ins |-> sel, out |-> 0, fee |-> 0,
-                                       made |-> {[id |-> nextId + j - 1, v |-> amt] : j \in 1..k}
-                                                \cup ChangeOf(SumV(sel) - k * amt, nextId + k)]})
+              /\ RedistOK(n, amt, 0, {RedistDesc(nextTx, sel, k, amt, nextId)})
+        \* more than one batch wanted: results of TWO transactions (both batches funded), the
+        \* single-transaction results above covering the partial successes (second batch dropped)
+        \/ /\ n > Batch
+           /\ \E k1, k2 \in 1..n : \E s1, s2 \in (SUBSET ConfMay) \ {{}} :
+                 /\ k1 + k2 <= n /\ s1 \cap s2 = {}
+                 /\ SumV(s1) >= k1 * amt /\ SumV(s2) >= k2 * amt
+                 /\ RedistOK(n, amt, 0, {RedistDesc(nextTx, s1, k1, amt, nextId),
+                                         RedistDesc(nextTx + 1, s2, k2, amt, nextId + NewIds(s1, k1, amt))})
+        \/ /\ DevRedistLocksGathered /\ n > Batch
+           /\ \E k \in 1..n : \E sel \in (SUBSET ConfMay) \ {{}} : \E extra \in (SUBSET (ConfMay \ sel)) \ {{}} :
+                 /\ SumV(sel) >= k * amt
+                 /\ RedistLeak(n, amt, 0, {RedistDesc(nextTx, sel, k, amt, nextId)}, extra)
 
 NextSplit ==
     \E n \in SplitNs, mn \in SplitMins :
